@@ -183,7 +183,35 @@ def _unescape(m):
     return re.sub(r"\\u\{([0-9a-fA-F]+)\}", lambda mo: chr(int(mo.group(1), 16)), m).replace('""', '"')
 
 
+def table_strtobool(rep):
+    """the real _strtobool on a fixed list of spellings (finite table, labelled; it is all that decides the parser when the
+    source-level translation cannot encode a rewritten _strtobool, and a cheap cross-check of the cvc5 result otherwise)"""
+    import itertools
+    words = {"true": True, "1": True, "false": False, "0": False}
+    cases = set()
+    for w in ("true", "false"):
+        for bits in itertools.product((0, 1), repeat=len(w)):
+            cases.add("".join(c.upper() if b else c for c, b in zip(w, bits)))
+    cases |= {"1", "0", "", " ", "2", "-1", "+1", "-0", "00", "01", "10", "11", "1_0", "0x1", "1.0", "0.0", " 1", "1 ", "\t0", "0\n", "yes", "no", "on", "off",
+              "y", "n", "t", "f", "tru", "truee", "true ", " true", "fals", "falsee", "none", "null", "True1", "0false", "\u0661", "\uff11", "\u0131",
+              "TRU\u0130", "\u212a", "t\u0280ue"}
+    for sx in sorted(cases):
+        rep.finite_tables += 1
+        want = words.get(sx.lower()) if sx.lower() in words else ValueError
+        try:
+            got = CFG._strtobool(sx)
+        except ValueError:
+            got = ValueError
+        except Exception as e:      # noqa: B902
+            got = "%s: %s" % (type(e).__name__, e)
+        if got is not want:
+            rep.counterexample("strtobool-table", "_strtobool(%r) gave %r, the strict parser gives %r" % (sx, got, want),
+                               {"engine": "table", "what": "strtobool-table", "s": sx}, True)
+            return
+
+
 def part_strtobool(rep):
+    table_strtobool(rep)
     try:
         paths = translate_strtobool(CFG._strtobool)
     except Unsupported as e:
@@ -377,6 +405,17 @@ def table_precedence(rep):
         a = s.bool_array((2, 2))
         G.active_vertices_connected(s, a, acyclic=acyclic, use_graph_primitive=arg)
 
+    def connected_1x1(s, arg):
+        G.active_vertices_connected(s, s.bool_array((1, 1)), use_graph_primitive=arg)
+
+    def connected_isolated(s, arg):
+        G.active_vertices_connected(s, [s.bool_var(), s.bool_var()], G.Graph(2), use_graph_primitive=arg)
+
+    def cycle_one_edge(s, arg):
+        g = G.Graph(2)
+        g.add_edge(0, 1)
+        G.active_edges_single_cycle(s, [s.bool_var()], g, use_graph_primitive=arg)
+
     def cycle(s, arg):
         G.active_edges_single_cycle(s, BoolGridFrame(s, 1, 1), use_graph_primitive=arg)
 
@@ -393,6 +432,9 @@ def table_precedence(rep):
         G.division_connected(s, s.int_array((2, 2), 0, 1), 2)
     cases = [("connected", connected, "use_graph_primitive", False), ("connected-acyclic", lambda s, a: connected(s, a, True), "use_graph_primitive", True),
              ("single_cycle", cycle, "use_graph_primitive", False), ("crossable", crossable, "use_graph_primitive", False),
+             # degenerate sizes: the switch must be consulted before any small-input shortcut
+             ("connected-1x1", connected_1x1, "use_graph_primitive", False), ("connected-isolated", connected_isolated, "use_graph_primitive", False),
+             ("single_cycle-one-edge", cycle_one_edge, "use_graph_primitive", False),
              ("borders", borders, "use_graph_division_primitive", False), ("division_connected", division, "use_graph_primitive", False)]
     saved = (cspuz.config.use_graph_primitive, cspuz.config.use_graph_division_primitive)
     try:
@@ -570,7 +612,7 @@ def run(tier, only=None):
     rep.bounds = {"_strtobool": "ALL strings of any length (cvc5 strings with str.to_lower; non-ASCII closed by a table over all code points)",
                   "_get_backend_by_name": "every string of length <= 15 (CrossHair)",
                   "Config": "2^4 import-availability combinations (+ present-but-broken modules) x 9 backend settings x 9 x 4 flag spellings x infer_from_env (finite table, real module files in a temp dir)",
-                  "precedence": "6 graph constraints x argument {None,True,False} x both config flags (finite table)",
+                  "precedence": "9 graph constraint calls (incl. 1x1 grid, isolated vertices, a one-edge graph) x argument {None,True,False} x both config flags (finite table)",
                   "entry points": "the 5 text back ends (real classes) x {find_answer, solve} x {2, 0} answer keys: entry point used, number of "
                   "requests, presence of the answer-key line, resulting facts (finite table; stand-in external solvers)",
                   "dispatch": "7 defaults x 9 backend arguments x {find_answer, solve} x {Solver created before / after the default was assigned} (finite table)"}
@@ -590,5 +632,5 @@ def replay(payload, verbose=False):
     rep = common.Report("C20", "quick", "other", FILES)
     hits = []
     rep.counterexample = lambda key, text, pl, ok: hits.append(pl)   # type: ignore
-    {"config": table_config, "precedence": table_precedence, "dispatch": table_dispatch, "entry": table_entry_points}.get(payload.get("what"), lambda r: None)(rep)
+    {"config": table_config, "precedence": table_precedence, "dispatch": table_dispatch, "entry": table_entry_points, "strtobool-table": table_strtobool}.get(payload.get("what"), lambda r: None)(rep)
     return bool(hits)
